@@ -819,6 +819,9 @@ add("C15", "revert: dialect extends the sets of a shallow copy of the global coe
 add("C15", "benign: element rebound to a new set instead of updated in place", "sqlglot/dialects/bigquery.py",
     "    COERCES_TO[exp.DType.DECIMAL] |= {exp.DType.BIGDECIMAL}", "    COERCES_TO[exp.DType.DECIMAL] = COERCES_TO[exp.DType.DECIMAL] | {exp.DType.BIGDECIMAL}", "silent", 0)
 
+add("C15", "Databricks widens the shared coercion sets from inside a class-body loop", "sqlglot/dialects/databricks.py",
+    "    COERCES_TO = defaultdict(set, deepcopy(TypeAnnotator.COERCES_TO))\n", "    COERCES_TO = defaultdict(set, TypeAnnotator.COERCES_TO)\n", "C15.c")
+
 add("C08", "revert: pipe AGGREGATE groups embedded in SELECT and GROUP BY", P,
     "                *[\n                    projection.args.get(\"alias\", projection).copy()\n                    for projection in aggregates_or_groups\n                ],\n",
     "                *[projection.args.get(\"alias\", projection) for projection in aggregates_or_groups],\n", "C08.e")
@@ -873,6 +876,9 @@ add("C08", "revert: pushdown_dnf embeds the looked-up predicate itself", "sqlglo
 add("C08", "revert: star REPLACE embeds the looked-up replacement itself for every source", "sqlglot/optimizer/qualify_columns.py",
     "                    replaced = replaced_columns.get(name)\n                    selection_expr = (\n                        replaced.copy()\n                        if replaced\n                        else exp.column(name, table=table, quoted=quoted)\n                    )\n",
     "                    selection_expr = replaced_columns.get(name) or exp.column(\n                        name, table=table, quoted=quoted\n                    )\n", "C08.g")
+add("C08", "join list sorted in place through an annotated alias", "sqlglot/optimizer/optimize_joins.py",
+    "        parent.set(\n            \"joins\",\n            [\n                joins_by_name[name]\n                for name in tsort(dag)\n                if name != from_.alias_or_name and name in joins_by_name\n            ],\n        )\n",
+    "        order = {name: position for position, name in enumerate(tsort(dag))}\n        joins.sort(key=lambda join: order[join.alias_or_name])\n", "C08.a")
 add("C08", "revert: elimination stores the surviving operand in two places", "sqlglot/optimizer/simplify.py",
     "                    op.replace(complement.copy())\n", "                    op.replace(complement)\n", "C08.k")
 add("C08", "merged projection moved into the first reference, then wrapped in place for a later one", "sqlglot/optimizer/merge_subqueries.py",
